@@ -11,6 +11,11 @@ package llread
 #include <llvm-c/Target.h>
 
 static LLVMValueRef incomingValue(LLVMValueRef phi, unsigned i) { return LLVMGetIncomingValue(phi, i); }
+static int paramHasAttr(LLVMValueRef fn, unsigned paramIdx, const char *name, size_t n) {
+	unsigned kind = LLVMGetEnumAttributeKindForName(name, n);
+	if (kind == 0) return 0;
+	return LLVMGetEnumAttributeAtIndex(fn, paramIdx + 1, kind) != NULL;
+}
 */
 import "C"
 
@@ -146,6 +151,8 @@ type Func struct {
 	Decl   bool
 	Mod    *Module
 	NInst  int
+	// NoAlias[i]: parameter i carries the noalias attribute
+	NoAlias []bool
 }
 
 type Global struct {
@@ -247,6 +254,9 @@ func ParseFile(path string) (*Module, error) {
 			v := &Value{Kind: VArg, Type: r.typ(C.LLVMTypeOf(p)), Name: valueName(p), ArgNo: i}
 			r.values[p] = v
 			fn.Params = append(fn.Params, v)
+			na := C.CString("noalias")
+			fn.NoAlias = append(fn.NoAlias, C.paramHasAttr(f, C.unsigned(i), na, 7) != 0)
+			C.free(unsafe.Pointer(na))
 		}
 	}
 	for g := C.LLVMGetFirstGlobal(m); g != nil; g = C.LLVMGetNextGlobal(g) {
